@@ -6,15 +6,16 @@ LEVEL = "proof"
 CON = "src/ompl/base/src/Constraint.cpp"
 PSS = "src/ompl/base/spaces/constraint/src/ProjectedStateSpace.cpp"
 CSS = "src/ompl/base/spaces/constraint/src/ConstrainedStateSpace.cpp"
-FLAGS = ["--bounds-check", "--pointer-check", "--signed-overflow-check", "--conversion-check", "--div-by-zero-check"]
+FLAGS = ["--bounds-check", "--pointer-check", "--signed-overflow-check", "--conversion-check", "--div-by-zero-check", "--object-bits", "12"]
 PROJ_RULES = [
     (r"Eigen::VectorXd f\(getCoDimension\(\)\);", "", 0), (r"Eigen::MatrixXd j\(getCoDimension\(\), n_\);", "", 0),
     (r"function\(x, f\);", "FUNCTION();", 0), (r"f\.squaredNorm\(\)", "SQNORM()", 0), (r"jacobian\(x, j\);", "JACOBIAN();", 0),
-    (r"x -= j\.jacobiSvd\(Eigen::ComputeThinU \| Eigen::ComputeThinV\)\.solve\(f\);", "NEWTON_STEP();", 0), (r"f\.allFinite\(\)", "ALLFINITE()", 0),
+    (r"x -= j\.jacobiSvd\(Eigen::ComputeThinU \| Eigen::ComputeThinV\)\.solve\(f\);", "NEWTON_STEP();", 0),
+    (r"const Eigen::VectorXd (\w+) = j\.jacobiSvd\(Eigen::ComputeThinU \| Eigen::ComputeThinV\)\.solve\(f\);", "SOLVE_STEP();", 0), (r"\bdx\.squaredNorm\(\)", "DXNORM()", 0), (r"x -= dx;", "APPLY_STEP();", 0), (r"f\.allFinite\(\)", "ALLFINITE()", 0),
 ]
 PROJ_SRC = [
     dict(name="project", file=CON, sig=r"bool ompl::base::Constraint::project\(Eigen::Ref<Eigen::VectorXd> x\) const", rules=PROJ_RULES, loops={1: """
-__CPROVER_assigns(norm, iter, xver, fver, jver, steps, last_norm, last_norm_ver)
+__CPROVER_assigns(norm, iter, xver, fver, jver, steps, last_norm, last_norm_ver, step_pending)
 __CPROVER_loop_invariant(iter <= maxIterations_ && fver == xver && steps == iter && xver == steps)
 __CPROVER_decreases(maxIterations_ - iter)
 """}),
@@ -28,11 +29,11 @@ PSI_RULES = [
     (r"out -= A\.partialPivLu\(\)\.solve\(b\);", "NEWTON_STEP();", 0), (r"b\.tail\(k_\) = bigPhi_\.transpose\(\) \* \(out - x0\);", "", 0),
 ]
 PROJ_SRC.append(dict(name="psi", file=ACH, sig=r"bool ompl::base::AtlasChart::psi\(const Eigen::Ref<const Eigen::VectorXd> &u, Eigen::Ref<Eigen::VectorXd> out\) const", rules=PSI_RULES, loops={1: """
-__CPROVER_assigns(norm, iter, xver, fver, jver, steps, last_norm, last_norm_ver)
+__CPROVER_assigns(norm, iter, xver, fver, jver, steps, last_norm, last_norm_ver, step_pending)
 __CPROVER_loop_invariant(iter <= maxIterations_ && fver == xver && steps == iter && xver == steps)
 __CPROVER_decreases(maxIterations_ - iter)
 """}))
-STUBS = ["FUNCTION", "JACOBIAN", "SQNORM", "NEWTON_STEP", "ALLFINITE", "SQUARE"]
+STUBS = ["FUNCTION", "JACOBIAN", "SQNORM", "NEWTON_STEP", "ALLFINITE", "SQUARE", "SOLVE_STEP", "DXNORM", "APPLY_STEP"]
 UNITS = [
     dict(name="c16_constraint_project", template="C16/project.c", entry="h_project", enforce=["constraint_project"], replace=STUBS, sources=PROJ_SRC, flags=FLAGS, level="proof", backend="minisat", timeout=600,
          functions=["ompl::base::Constraint::project(Eigen::Ref<Eigen::VectorXd>)"], expect_loops=1, confirm=dict(unwind=4, defines={}),
